@@ -242,14 +242,16 @@ class Cell(NullCell):
 
         payload = bytearray()
 
-        serialized_cells_len = []
+        cells_end_offsets = []
 
         for cell in ordered_cells:
             ser_result = cell.serialize(ordered_cells, cells_len)
             payload += ser_result
-            serialized_cells_len.append(len(ser_result))
+            cells_end_offsets.append(len(payload))
 
-        payload_len = (len(payload).bit_length() + 7) // 8
+        # index entries are cumulative end offsets; with cache bits they are doubled (lowest bit = should_cache)
+        max_offset = len(payload) * 2 if has_idx and has_cache_bits else len(payload)
+        payload_len = (max_offset.bit_length() + 7) // 8
 
         root_num = 1  # currently 1
         root_index = b'\00' * cells_len
@@ -266,8 +268,10 @@ class Cell(NullCell):
                  root_index
 
         if has_idx:
-            for l in serialized_cells_len:
-                result += l.to_bytes(payload_len, 'big')
+            for offset in cells_end_offsets:
+                if has_cache_bits:
+                    offset *= 2
+                result += offset.to_bytes(payload_len, 'big')
         result += payload
         if hash_crc32:
             result += crc32c(result)
